@@ -261,6 +261,7 @@ def gen_scenario(rng, prof=None, force_selflock=None):
     spec['rules'] = []
     spec['stop'] = None
     spec['prior_design'] = rng.randrange(1 << 30) if rng.random() < 0.3 else None     # relations declared differently first (sim/build.py prior_design)
+    spec['failed_attempts'] = rng.randrange(1 << 30) if rng.random() < 0.25 else None     # rejected declarations after the design (sim/build.py)
     spec['touch_constants'] = rng.randrange(1 << 30) if rng.random() < p.get('p_touch_constants', 0.15) else None   # constants converted in place after assembly (sim/build.py)
     spec['order'] = rng.randrange(24)          # which of the legal orders of public calls the driver uses (see sim/build.py)
     sched = [{'op': 'run', 'dt': dt, 'T': mulq(dt, n)}]
